@@ -5,6 +5,7 @@
 import Glb.Driver.Filter
 import Glb.Driver.Strutil
 import Glb.Driver.Fsutil
+import Glb.Driver.Config
 
 open Glb.Driver
 
@@ -15,4 +16,5 @@ def main (args : List String) : IO UInt32 := do
   | ["filter"] => loop stdin stdout ({} : Filter.DSt) Filter.step; return 0
   | ["strutil"] => loop stdin stdout () Strutil.step; return 0
   | ["fsutil"] => loop stdin stdout () Fsutil.step; return 0
+  | ["argv"] => loop stdin stdout ({} : Config.ArgvSt) Config.argvStep; return 0
   | _ => IO.eprintln "usage: driver <stream>"; return 2
